@@ -557,4 +557,22 @@ theorem lookup_of_nodup (vars : List (Bytes × α)) (hnd : (vars.map (·.1)).Nod
 theorem pick_self (vars : List (Bytes × α)) (hnd : (vars.map (·.1)).Nodup) :
     pick (vars.map (·.1)) vars = vars := pick_of_lookup vars vars (lookup_of_nodup vars hnd)
 
+theorem restoreScalars_byDim (L : List (Bytes × Cell)) :
+    ∀ (m m' : Mem), restoreScalars L m = .ok m' → m'.baseByDim = m.baseByDim :=
+  fun m m' h => (restoreScalars_ok L m m' h).2.2.2.2.2.2.2.2.2.1
+
+/-- with no array to restore, the "base implied by DIM" flag is what `_clear_all` left -/
+theorem restoreCommons_byDim (st : Store) (ss : List (Bytes × Cell)) (m m4 : Mem)
+    (h : restoreCommons st ss [] m = .ok m4) : m4.baseByDim = m.baseByDim ∧ m4.base = m.base := by
+  simp only [restoreCommons] at h
+  split at h
+  · cases h
+  · split at h
+    · cases h
+    · rename_i m2 h2
+      simp only [restoreArrays, Except.ok.injEq] at h
+      subst h
+      have a := restoreScalars_ok ss _ _ h2
+      exact ⟨a.2.2.2.2.2.2.2.2.2.1, a.2.2.2.2.2.2.2.2.1⟩
+
 end PcbV.ClearChain
